@@ -1,5 +1,5 @@
 """C04 — encoder results do not depend on chunking or on UTF-8 vs UTF-16 input form (structural clauses)."""
-import t_dst, r_account, r_iso
+import t_dst, r_account, r_iso, r_lookahead, r_surr, r_inputempty
 import p_c09
 
 MANIFEST = {
@@ -26,6 +26,12 @@ def run(rep, facts, tier):
         nb, ng = r_account.run(rep, f, c, 'R-ACCOUNT', lambda n: 'Encoder::' in n)
         rep.floor('R-ACCOUNT', 'encoder bodies with unit fetches', nb, 14, c)
         r_iso.run(rep, f, c, 'R-ISO', '::encode_from_utf8_raw', '::encode_from_utf16_raw', 7)
+        n = r_lookahead.run(rep, f, c, 'R-LOOKAHEAD', lambda nm: nm.startswith(('handles::Utf16Source', 'single_byte::SingleByteEncoder')))
+        rep.floor('R-LOOKAHEAD', 'surrogate look-ahead sites', n, 4, c)
+        n = r_surr.run(rep, f, c, 'R-SURR', lambda nm: 'Encoder::' in nm or nm.startswith(('handles::Utf16Source', 'handles::Utf8Source')))
+        rep.floor('R-SURR', 'surrogate tests on the encoder side', n, 10, c)
+        n = r_inputempty.run(rep, f, c, 'R-INPUTEMPTY', lambda nm: 'Encoder::' in nm or nm.startswith(('handles::Utf16Source', 'handles::Utf8Source')))
+        rep.floor('R-INPUTEMPTY', 'InputEmpty constructions (encoders)', n, 25, c)
         for w in p_c09.WRAPPERS:
             if w[4]:
                 p_c09.wrapper(rep, f, c, *w)
